@@ -2,6 +2,10 @@ import KcpVerif.Model.Kcp
 import KcpVerif.Lemmas.KcpLive
 import KcpVerif.Lemmas.KcpProbe
 import KcpVerif.Lemmas.SysDrainSnd
+import KcpVerif.Lemmas.SysDrainProbe4
+import KcpVerif.Lemmas.SysDrainFull
+import KcpVerif.Lemmas.SysDrainFull2
+import KcpVerif.Lemmas.SysDrainFair2
 /-! C03 — a stalled reader throttles the sender and transfer resumes afterwards. -/
 namespace KcpVerif.Props
 open KcpVerif KcpVerif.Gen KcpVerif.Kcp KcpVerif.Live
@@ -437,5 +441,257 @@ def C03_resume_full : Prop :=
   ∀ (p : SysC.Par) (s : Sys.State) (gab gba : SysC.GLink), SysC.Cons p s gab gba →
     ∃ T : Nat, ∀ evs : List Sys.Ev, (∀ ev ∈ evs, SysC.isSend ev = false) →
       s.now + T ≤ (Sys.run s evs).now → (Sys.run s evs).A.waitSnd = 0
+
+/-! ### Tier 2, zero-window probing in the closed system (repaired model, arbitrary histories)
+
+One probe round as a chain of five phases with deadlines (Lemmas/SysDrainProbe*.lean), each preserved
+or advanced by every event of the fair system, from ANY consistent state — whatever was lost before:
+
+* `Z0` — A's `rmt_wnd` is 0 and the probe timer is not armed: A's next full flush (by `T0`) arms it
+  `IKCP_PROBE_INIT` ahead;
+* `ZA` — armed for `P`: flushes before `P` leave it alone, the first flush at or after `P` (by
+  `T1 ≥ P + interval_A`) writes a WASK and re-arms with the backed-off wait (≤ `IKCP_PROBE_LIMIT`);
+* `ZW` — the WASK is on its way, at B by `T1 + D`; B's `Input` sets ASK_TELL;
+* `ZT` — B owes the answer: its next flush of either kind (by `T1 + D + interval_B`) writes a WINS, and
+  every frame of that flush carries the window computed at that flush;
+* `ZR` — that datagram is on its way, at A by `T1 + D + interval_B + D`; A takes over its window.
+
+Run hypothesis (`SysC.ProbeHyp`, a check on single states): fewer than 2^30 segments, and B's receive
+queue is not full and `rcv_wnd < 65536` (else the answer is again 0 — correctly — and the round
+repeats).  `PInv` (an invariant of every event): an armed timer is at most `IKCP_PROBE_LIMIT` = 120 s
+ahead of the clock and at most one interval behind A's next flush. -/
+
+open KcpVerif.Sys KcpVerif.SysC in
+/-- **the flush of a sender with a closed remote window** at time `t`: arms the probe timer, leaves it
+alone before its time, or writes a WASK frame -/
+theorem C03_closed_probe_flush (K : Kcp) (t IA T0 T1 : Nat) (h0 : K.rmt_wnd = 0) (hiv : K.interval.toNat = IA)
+    (hz : (K.probe_wait = 0 ∧ t ≤ T0 ∧ T0 + IKCP_PROBE_INIT + IA ≤ T1 ∧ T1 < t + IKCP_PROBE_INIT + 2 ^ 31) ∨
+      (K.probe_wait ≠ 0 ∧ t ≤ T1 ∧ ∃ P, K.ts_probe = clk P ∧ P + IA ≤ T1 ∧ T1 < P + 2 ^ 31)) :
+    ((flush K true (clk t)).k.probe_wait ≠ 0 ∧ t + (flush K true (clk t)).interval.toNat ≤ T1 ∧
+      ∃ P, (flush K true (clk t)).k.ts_probe = clk P ∧ P + IA ≤ T1 ∧ T1 < P + 2 ^ 31) ∨
+    (∃ fr ∈ SysW.flushFrs K true (clk t), fr.cmd.toNat = IKCP_CMD_WASK) :=
+  zA_flush K t IA T0 T1 h0 hiv hz
+
+open KcpVerif.Sys KcpVerif.SysC in
+/-- **the phases on B's side and on the way back** (`ZW`, `ZT`, `ZR`): every event keeps the phase, moves
+to a later one within its deadline, or opens A's remote window -/
+theorem C03_closed_probe_answer {p : Par} {s : State} {gab gba : GLink} (h : Cons p s gab gba) (hnw : NoWrap p.base s)
+    (T2 T3 T4 IB : Nat) (ht : Tm IB s) (hT3 : T2 + IB ≤ T3) (hT4 : T3 + s.D ≤ T4) (hQ : QB s) (ev : Ev)
+    (hQ' : QB (Sys.step s ev)) (hp' : (Sys.step s ev).panic = false) (hz : ZW T2 s ∨ ZT T3 s ∨ ZR T4 s) :
+    (ZW T2 (Sys.step s ev) ∨ ZT T3 (Sys.step s ev) ∨ ZR T4 (Sys.step s ev)) ∨ (Sys.step s ev).A.rmt_wnd ≠ 0 :=
+  zB_step h hnw T2 T3 T4 IB ht hT3 hT4 hQ ev hQ' hp' hz
+
+open KcpVerif.Sys KcpVerif.SysC in
+/-- **the probe timer is bounded in reachable states**: `PInv` is kept by every event -/
+theorem C03_closed_probe_timer_bounded {p : Par} {s : State} {gab gba : GLink} (h : Cons p s gab gba)
+    (hnw : NoWrap p.base s) (IA : Nat) (hIA : IA < 2 ^ 30) (hta : TmA IA s) (hpi : PInv IA s) (ev : Ev) :
+    PInv IA (Sys.step s ev) :=
+  pinv_step h hnw IA hIA hta hpi ev
+
+open KcpVerif.Sys KcpVerif.SysC in
+/-- **one probe round, bound by phase**: from a consistent state in phase `Z0` or `ZA`, in every run
+whose clock passes `T1 + D + interval_B + D`, A's `rmt_wnd` is non-zero in some state of the run -/
+theorem C03_probe_round {p : Par} {IA IB : Nat} {s : State} (hi : Inv p IA IB s) (T0 T1 : Nat)
+    (hz : Z0 IA T0 T1 s ∨ ZA IA T1 s) (evs : List Ev) (hr : RunP (ProbeHyp p) s evs)
+    (hnow : T1 + s.D + IB + s.D < (Sys.run s evs).now) :
+    ∃ a b, evs = a ++ b ∧ (Sys.run s a).A.rmt_wnd ≠ 0 :=
+  probe_round hi T0 T1 hz evs hr hnow
+
+open KcpVerif.Sys KcpVerif.SysC in
+/-- **zero-window probing, with the 120 s cap**: two fresh endpoints, ANY history `pre` of writes, reads,
+events and network faults (every WASK and WINS of the past may have been lost); from the state it
+leaves, over fair links, in every run whose clock advances by more than
+`IKCP_PROBE_LIMIT + 2·interval_A + D + interval_B + D` ms there is a state in which A's `rmt_wnd` is
+non-zero — the sender has learned a window that B computed when its receive queue was not full. -/
+theorem C03_zero_window_probe_bound (A B : Kcp) (D t0 : Nat) (ndA ndB : Bool) (hinit : ConsInit A B)
+    (hpw : A.probe_wait = 0) (hIA : A.interval.toNat < 2 ^ 29) (pre : List NetEv)
+    (hpre : NetNoWrap A.snd_nxt (Sys.init A B D t0 ndA ndB) pre) (evs : List Ev)
+    (hr : RunP (ProbeHyp ⟨A.snd_nxt, A.conv, 0, 0, 0⟩) (netRun (Sys.init A B D t0 ndA ndB) pre) evs)
+    (hnow : (netRun (Sys.init A B D t0 ndA ndB) pre).now + IKCP_PROBE_LIMIT + 2 * A.interval.toNat +
+      (netRun (Sys.init A B D t0 ndA ndB) pre).D + B.interval.toNat + (netRun (Sys.init A B D t0 ndA ndB) pre).D <
+      (Sys.run (netRun (Sys.init A B D t0 ndA ndB) pre) evs).now) :
+    ∃ a b, evs = a ++ b ∧ (Sys.run (netRun (Sys.init A B D t0 ndA ndB) pre) a).A.rmt_wnd ≠ 0 := by
+  obtain ⟨hi, hpi⟩ := inv_pinv_netRun (by omega) pre _ (inv_init A B D t0 ndA ndB hinit)
+    (pinv_init A B D t0 ndA ndB hpw) hpre
+  exact probe_opens hi hpi hIA evs hr hnow
+
+/-! non-vacuity of `C03_probe_round` (and of the invariants behind `C03_zero_window_probe_bound`): B has
+a receive window of one segment (`wedgeB`); A writes two messages and flushes, B takes the first into
+its queue (now full) and the second into the reorder buffer and acknowledges both with `wnd = 0`; A
+processes the ACKs (`rmt_wnd = 0`, its ACK-triggered flush arms the probe timer: `ts_probe = 1500`); the
+reader returns and reads both; the WINS that B's `Recv` schedules is flushed and LOST (`shuffle [] []`).
+In the state this leaves: `rmt_wnd = 0`, phase `ZA` with `P = 1500`, `T1 = 1510`.  Then 53 rounds of
+"10 ticks, flushes, deliveries, read": the run hypotheses hold and the clock reaches 1530 > 1520. -/
+
+def c03ProbePre : List SysC.NetEv :=
+  [.fair (.send [1]), .fair (.send [2]), .fair .flushA, .fair .dlvB, .fair .flushB, .fair .dlvA,
+   .fair .read, .fair .read, .fair .flushB, .shuffle [] []]
+def c03ProbeRound : List Sys.Ev := List.replicate 10 .tick ++ [.flushA, .dlvB, .flushB, .dlvA, .read]
+def c03ProbeEvs : List Sys.Ev := (List.replicate 53 c03ProbeRound).flatten
+
+set_option maxRecDepth 1000000 in
+example : SysC.ConsInit SysC.wedgeA SysC.wedgeB ∧ SysC.wedgeA.probe_wait = 0 ∧
+    SysC.NetNoWrap SysC.wedgeA.snd_nxt (Sys.init SysC.wedgeA SysC.wedgeB 0 1000) c03ProbePre ∧
+    (SysC.netRun (Sys.init SysC.wedgeA SysC.wedgeB 0 1000) c03ProbePre).A.rmt_wnd = 0 ∧
+    (SysC.netRun (Sys.init SysC.wedgeA SysC.wedgeB 0 1000) c03ProbePre).ba = [] ∧
+    (SysC.netRun (Sys.init SysC.wedgeA SysC.wedgeB 0 1000) c03ProbePre).got = [1, 2] ∧
+    SysC.ZA 10 1510 (SysC.netRun (Sys.init SysC.wedgeA SysC.wedgeB 0 1000) c03ProbePre) ∧
+    1510 + 0 + 10 + 0 < (Sys.run (SysC.netRun (Sys.init SysC.wedgeA SysC.wedgeB 0 1000) c03ProbePre) c03ProbeEvs).now :=
+  ⟨by decide, by decide, by decide, by decide, by decide, by decide,
+   ⟨by decide, by decide, by decide, 1500, by decide, by decide, by decide⟩, by decide⟩
+set_option maxRecDepth 1000000 in
+example : SysC.RunP (SysC.ProbeHyp ⟨SysC.wedgeA.snd_nxt, SysC.wedgeA.conv, 0, 0, 0⟩)
+    (SysC.netRun (Sys.init SysC.wedgeA SysC.wedgeB 0 1000) c03ProbePre) c03ProbeEvs := by decide
+
+/-! ### `resume`: the reader was away, every WASK / WINS of that period may be lost, it returns
+
+The history `pre` is arbitrary (`netRun`): it contains the period in which nobody reads at B — B's
+queue fills, it advertises `wnd = 0`, A stops numbering segments (`C03_closed_throttled_no_new_sn`, the
+standstill half) — and any loss of probes and answers.  In the state it leaves the reader is back: from
+now on it reads whenever there is something to read (`QOk`), the links are fair, the writer has stopped.  Then the transfer completes: the window is re-opened by a probe
+round (`C03_zero_window_probe_bound`), the queued segments are numbered and acknowledged one stage after
+the other (Lemmas/SysDrainFair2.lean).  Hypotheses as in `C02_drain_general_partial` (Props/C02.lean):
+`SysC.FairHyp` in every state of the run — head timers within `Rmax`, a send window at A,
+`0 < rcv_wnd < 65536`, the reader condition; congestion control may be on or off; stale `wnd = 0`
+frames still on their way to A at the return are covered (they arrive within `D`); B's queue may fill
+up between two reads. -/
+
+open KcpVerif.Sys KcpVerif.SysC in
+theorem C03_resume_partial (A B : Kcp) (D t0 : Nat) (ndA ndB : Bool) (hinit : ConsInit A B)
+    (hpw : A.probe_wait = 0) (hIA : A.interval.toNat < 2 ^ 29) (pre : List NetEv)
+    (hpre : NetNoWrap A.snd_nxt (Sys.init A B D t0 ndA ndB) pre) (Rmax : Nat) (hR : Rmax + A.interval.toNat < 2 ^ 31)
+    (evs : List Ev) (hns : ∀ ev ∈ evs, isSend ev = false)
+    (hr : RunP (FairHyp ⟨A.snd_nxt, A.conv, 0, 0, 0⟩ Rmax A.interval.toNat) (netRun (Sys.init A B D t0 ndA ndB) pre) evs)
+    (hnow : (netRun (Sys.init A B D t0 ndA ndB) pre).now + 1 + (netRun (Sys.init A B D t0 ndA ndB) pre).A.waitSnd *
+      (fairStage Rmax A.interval.toNat B.interval.toNat (netRun (Sys.init A B D t0 ndA ndB) pre).D + 2) ≤
+      (Sys.run (netRun (Sys.init A B D t0 ndA ndB) pre) evs).now) :
+    (Sys.run (netRun (Sys.init A B D t0 ndA ndB) pre) evs).A.waitSnd = 0 := by
+  obtain ⟨hi, hpi⟩ := inv_pinv_netRun (by omega) pre _ (inv_init A B D t0 ndA ndB hinit)
+    (pinv_init A B D t0 ndA ndB hpw) hpre
+  exact drain_fair_any hIA hR hi hpi (arrOk_netRun pre _ (arrOk_init A B D t0 ndA ndB)) evs hns hr hnow
+
+/-! what `C03_resume_partial` does not cover (the full statement stays `C03_resume_full` above): the
+derivation of `TmrOk` from the number of earlier timeouts (the RTO backoff of a segment is not capped in
+kcp-go, so a bound on the head's timer is a hypothesis), and a writer that goes on writing. -/
+
+/-! non-vacuity of `C03_resume_partial`, and three scenarios evaluated (the run hypotheses hold in
+every state: `runFairChk_sound`, `Rmax = 300`; the length hypothesis `hnow` of the theorem asks for
+`WaitSnd · (fairStage + 2)` > 120 s of clock per waiting segment, which only needs more idle rounds —
+the worst-case bound is dominated by the 120 s probe back-off cap).
+
+1. B has a receive window of 4; A writes six one-byte messages and flushes while nobody reads: B queues
+   four, buffers two, acknowledges all six with `wnd = 0`; A processes the ACKs (`rmt_wnd = 0`, probe
+   timer armed for t = 1500) and the writer writes three more messages, which stay in the queue.  The
+   reader returns and reads six messages; the WINS this schedules is flushed and LOST.  State:
+   `rmt_wnd = 0`, three segments queued, nothing in flight.  Then 55 rounds of "10 ticks, flushes,
+   deliveries, four reads": the WASK goes out at t = 1500, the window re-opens, the three segments are
+   numbered, delivered, read and acknowledged by t = 1510. -/
+
+def c03ResA : Kcp := Kcp.noDelay (Kcp.new 7) 1 10 2 1
+def c03ResB : Kcp := Kcp.wndSize (Kcp.noDelay (Kcp.new 7) 1 10 2 1) 32 4
+def c03ResPre : List SysC.NetEv :=
+  [.fair (.send [1]), .fair (.send [2]), .fair (.send [3]), .fair (.send [4]), .fair (.send [5]), .fair (.send [6]),
+   .fair .flushA, .fair .dlvB, .fair .flushB, .fair .dlvA,
+   .fair (.send [7]), .fair (.send [8]), .fair (.send [9]),
+   .fair .read, .fair .read, .fair .read, .fair .read, .fair .read, .fair .read, .fair .flushB, .shuffle [] []]
+def c03ResRound : List Sys.Ev := List.replicate 10 .tick ++ [.flushA, .dlvB, .flushB, .dlvA, .read, .read, .read, .read]
+def c03ResEvs : List Sys.Ev := (List.replicate 55 c03ResRound).flatten
+
+set_option maxRecDepth 1000000 in
+example : SysC.ConsInit c03ResA c03ResB ∧ c03ResA.probe_wait = 0 ∧ c03ResA.interval.toNat = 10 ∧
+    SysC.NetNoWrap c03ResA.snd_nxt (Sys.init c03ResA c03ResB 0 1000) c03ResPre ∧
+    (SysC.netRun (Sys.init c03ResA c03ResB 0 1000) c03ResPre).A.rmt_wnd = 0 ∧
+    (SysC.netRun (Sys.init c03ResA c03ResB 0 1000) c03ResPre).A.snd_buf = [] ∧
+    (SysC.netRun (Sys.init c03ResA c03ResB 0 1000) c03ResPre).A.snd_queue.length = 3 ∧
+    (SysC.netRun (Sys.init c03ResA c03ResB 0 1000) c03ResPre).B.rcv_queue = [] ∧
+    (SysC.netRun (Sys.init c03ResA c03ResB 0 1000) c03ResPre).got = [1, 2, 3, 4, 5, 6] ∧
+    (∀ ev ∈ c03ResEvs, SysC.isSend ev = false) ∧
+    (Sys.run (SysC.netRun (Sys.init c03ResA c03ResB 0 1000) c03ResPre) c03ResEvs).A.waitSnd = 0 ∧
+    (Sys.run (SysC.netRun (Sys.init c03ResA c03ResB 0 1000) c03ResPre) c03ResEvs).got = [1, 2, 3, 4, 5, 6, 7, 8, 9] := by
+  decide
+set_option maxRecDepth 1000000 in
+example : SysC.RunP (SysC.FairHyp ⟨c03ResA.snd_nxt, c03ResA.conv, 0, 0, 0⟩ 300 10)
+    (SysC.netRun (Sys.init c03ResA c03ResB 0 1000) c03ResPre) c03ResEvs :=
+  SysC.runFairChk_sound ⟨c03ResA.snd_nxt, c03ResA.conv, 0, 0, 0⟩ 300 10 _ _ (by decide)
+
+/-! 2. the same with congestion control ON (`nocwnd = 0`, fresh `cwnd = 0`): the history first lets the
+congestion window open to 2, the reader stays away until B's queue of four is full and A has learned
+`wnd = 0` with five messages still queued; the reader returns, the WINS is lost; along 58 rounds the
+window re-opens at t = 1500 and everything is delivered, read and acknowledged. -/
+
+def c03CcA : Kcp := Kcp.noDelay (Kcp.new 7) 1 10 2 0
+def c03CcB : Kcp := Kcp.wndSize (Kcp.noDelay (Kcp.new 7) 1 10 2 0) 32 4
+def c03CcPre : List SysC.NetEv :=
+  [.fair (.send [1]), .fair (.send [2]), .fair (.send [3]), .fair (.send [4]), .fair (.send [5]), .fair (.send [6]),
+   .fair .flushA, .fair .flushA, .fair .dlvB, .fair .flushB, .fair .dlvA, .fair .flushA, .fair .dlvB, .fair .flushB,
+   .fair .dlvA, .fair .flushA, .fair .dlvB, .fair .flushB, .fair .dlvA,
+   .fair (.send [7]), .fair (.send [8]), .fair (.send [9]),
+   .fair .read, .fair .read, .fair .read, .fair .read, .fair .read, .fair .read, .fair .flushB, .shuffle [] []]
+def c03CcEvs : List Sys.Ev := (List.replicate 58 c03ResRound).flatten
+
+set_option maxRecDepth 1000000 in
+example : SysC.ConsInit c03CcA c03CcB ∧ c03CcA.probe_wait = 0 ∧ c03CcA.nocwnd = 0 ∧ c03CcA.cwnd = 0 ∧
+    SysC.NetNoWrap c03CcA.snd_nxt (Sys.init c03CcA c03CcB 0 1000) c03CcPre ∧
+    (SysC.netRun (Sys.init c03CcA c03CcB 0 1000) c03CcPre).A.rmt_wnd = 0 ∧
+    (SysC.netRun (Sys.init c03CcA c03CcB 0 1000) c03CcPre).A.snd_buf = [] ∧
+    (SysC.netRun (Sys.init c03CcA c03CcB 0 1000) c03CcPre).A.snd_queue.length = 5 ∧
+    (SysC.netRun (Sys.init c03CcA c03CcB 0 1000) c03CcPre).B.rcv_queue = [] ∧
+    (∀ ev ∈ c03CcEvs, SysC.isSend ev = false) ∧
+    (Sys.run (SysC.netRun (Sys.init c03CcA c03CcB 0 1000) c03CcPre) c03CcEvs).A.waitSnd = 0 ∧
+    (Sys.run (SysC.netRun (Sys.init c03CcA c03CcB 0 1000) c03CcPre) c03CcEvs).got = [1, 2, 3, 4, 5, 6, 7, 8, 9] := by
+  decide
+set_option maxRecDepth 1000000 in
+example : SysC.RunP (SysC.FairHyp ⟨c03CcA.snd_nxt, c03CcA.conv, 0, 0, 0⟩ 300 10)
+    (SysC.netRun (Sys.init c03CcA c03CcB 0 1000) c03CcPre) c03CcEvs :=
+  SysC.runFairChk_sound ⟨c03CcA.snd_nxt, c03CcA.conv, 0, 0, 0⟩ 300 10 _ _ (by decide)
+
+/-! 3. a receive window of ONE segment (`wedgeB`): every arrival fills B's queue until the next read, so
+"B's queue is never full" (`SysC.runFullChk`) fails along this run while the reader condition holds.  A
+writes three messages and flushes, B takes the first and drops the other two (out of window), its ACK
+carries `wnd = 0`; a fourth message is queued; the reader reads; the WINS is lost.  State: `rmt_wnd = 0`,
+one segment outstanding, one queued.  Along 25 rounds the timer of the outstanding segment fires at
+t = 1200 and everything is delivered, read and acknowledged. -/
+
+def c03W1Pre : List SysC.NetEv :=
+  [.fair (.send [1]), .fair (.send [2]), .fair (.send [3]), .fair .flushA, .fair .dlvB, .fair .flushB, .fair .dlvA,
+   .fair (.send [4]), .fair .read, .fair .read, .fair .flushB, .shuffle [] []]
+def c03W1Round : List Sys.Ev :=
+  List.replicate 10 .tick ++ [.flushA, .dlvB, .read, .flushB, .dlvA, .read, .flushA, .dlvB, .read, .flushB, .dlvA]
+def c03W1Evs : List Sys.Ev := (List.replicate 25 c03W1Round).flatten
+
+set_option maxRecDepth 1000000 in
+example : SysC.ConsInit SysC.wedgeA SysC.wedgeB ∧ SysC.wedgeB.rcv_wnd.toNat = 1 ∧
+    SysC.NetNoWrap SysC.wedgeA.snd_nxt (Sys.init SysC.wedgeA SysC.wedgeB 0 1000) c03W1Pre ∧
+    (SysC.netRun (Sys.init SysC.wedgeA SysC.wedgeB 0 1000) c03W1Pre).A.rmt_wnd = 0 ∧
+    (SysC.netRun (Sys.init SysC.wedgeA SysC.wedgeB 0 1000) c03W1Pre).A.waitSnd = 2 ∧
+    (SysC.netRun (Sys.init SysC.wedgeA SysC.wedgeB 0 1000) c03W1Pre).B.rcv_queue = [] ∧
+    (∀ ev ∈ c03W1Evs, SysC.isSend ev = false) ∧
+    SysC.runFullChk SysC.wedgeA.snd_nxt 300 10 (SysC.netRun (Sys.init SysC.wedgeA SysC.wedgeB 0 1000) c03W1Pre) c03W1Evs = false ∧
+    (Sys.run (SysC.netRun (Sys.init SysC.wedgeA SysC.wedgeB 0 1000) c03W1Pre) c03W1Evs).A.waitSnd = 0 ∧
+    (Sys.run (SysC.netRun (Sys.init SysC.wedgeA SysC.wedgeB 0 1000) c03W1Pre) c03W1Evs).got = [1, 2, 3, 4] := by
+  decide
+set_option maxRecDepth 1000000 in
+example : SysC.RunP (SysC.FairHyp ⟨SysC.wedgeA.snd_nxt, SysC.wedgeA.conv, 0, 0, 0⟩ 300 10)
+    (SysC.netRun (Sys.init SysC.wedgeA SysC.wedgeB 0 1000) c03W1Pre) c03W1Evs :=
+  SysC.runFairChk_sound ⟨SysC.wedgeA.snd_nxt, SysC.wedgeA.conv, 0, 0, 0⟩ 300 10 _ _ (by decide)
+
+/-! 4. ALL hypotheses of `C03_resume_partial` at once, the length included — by evaluation only (`#guard`,
+not a kernel proof: the run has 170 000 events): flush interval 5000 ms at both ends, one segment written,
+flushed and lost; 34 rounds of "5000 ticks, flushes, deliveries, read" take the clock to t = 161 500,
+beyond `1 + 1 · (fairStage 300 5000 5000 0 + 2) = 155 306` ms after the start; `FairHyp` holds in every
+state, and the segment is delivered and acknowledged. -/
+
+def c03LongA : Kcp := Kcp.noDelay (Kcp.new 7) 1 5000 2 1
+def c03LongPre : List SysC.NetEv := [.fair (.send [1]), .fair .flushA, .shuffle [] []]
+def c03LongRound : List Sys.Ev := List.replicate 5000 .tick ++ [.flushA, .dlvB, .read, .flushB, .dlvA]
+def c03LongEvs : List Sys.Ev := (List.replicate 34 c03LongRound).flatten
+
+#guard decide (SysC.ConsInit c03LongA c03LongA ∧ c03LongA.probe_wait = 0 ∧ c03LongA.interval.toNat = 5000 ∧
+    SysC.NetNoWrap c03LongA.snd_nxt (Sys.init c03LongA c03LongA 0 1000) c03LongPre ∧ (∀ ev ∈ c03LongEvs, SysC.isSend ev = false))
+#guard SysC.runFairChk c03LongA.snd_nxt 300 5000 (SysC.netRun (Sys.init c03LongA c03LongA 0 1000) c03LongPre) c03LongEvs
+#guard decide ((SysC.netRun (Sys.init c03LongA c03LongA 0 1000) c03LongPre).now + 1 +
+    (SysC.netRun (Sys.init c03LongA c03LongA 0 1000) c03LongPre).A.waitSnd * (SysC.fairStage 300 5000 5000 0 + 2) ≤
+    (Sys.run (SysC.netRun (Sys.init c03LongA c03LongA 0 1000) c03LongPre) c03LongEvs).now)
+#guard (Sys.run (SysC.netRun (Sys.init c03LongA c03LongA 0 1000) c03LongPre) c03LongEvs).A.waitSnd == 0
 
 end KcpVerif.Props
